@@ -105,6 +105,13 @@ func UAName(i int) string {
 	return fmt.Sprintf("ua%d.verif.test", i)
 }
 
+// SelfName and PeerName are defined in the host table of every service, with another address
+// in each: the service's own listener and one of the next hops.
+const (
+	SelfName = "self.verif.test"
+	PeerName = "peer.verif.test"
+)
+
 func HopName(i int) string {
 	if i >= 4 && i%2 == 0 {
 		return fmt.Sprintf("NH%d.verif.test", i)
@@ -128,6 +135,12 @@ func BuildConfig(p Plan, o Opts) *Config {
 	}
 	for s := 0; s < o.Services; s++ {
 		svc := &Service{Index: s, Name: ServiceNames(s), DialogTimeout: o.DialogTimeout, KeepNextHopRoute: s&1 != 0}
+		// names that every service defines for itself, each with another meaning
+		nhops := o.Hops
+		if nhops == 0 {
+			nhops = 4
+		}
+		svc.Hosts = append(svc.Hosts, HostIP{SelfName, p.Listener(s, 0)}, HostIP{PeerName, p.NextHop(1 + s%nhops)})
 		l := Listen{Address: p.Listener(s, 0), UDPPort: UDPPort, TCPPort: TCPPort, MustRecordRoute: s&2 != 0}
 		if s%4 == 3 {
 			l.TCPPort = UDPPort // both transports on 5060: "alias without port" designates them
